@@ -17,7 +17,8 @@ Section C08.
   Variable show_float : F -> str.
   Variable parse_float : bool -> str -> option F.
   Variable show_time_iso show_time_str : T -> str.
-  Variable parse_time_np parse_time_fmt parse_time_pd : str -> option T.
+  Variable parse_time_np : bool -> str -> option T.
+  Variable parse_time_fmt parse_time_pd : str -> option T.
   Variable parse_delta : str -> option D.
   Hypothesis feqb_spec : forall a b, reflect (a = b) (feqb a b).
   Hypothesis teqb_spec : forall a b, reflect (a = b) (teqb a b).
@@ -49,11 +50,13 @@ Section C08.
   (* floats / timestamps: reduced to the external conversions (trusted base) *)
   Theorem C08_float_time_roundtrip_conditional : forall hive f t ns single,
     (parse_float single (show_float f) = Some f -> parse_with_meta (KFloat single) (show hive (VFloat f)) = Ok (VFloat f)) /\
-    (parse_time_np (show_time_iso t) = Some t -> parse_with_meta (KTime ns) (show true (VTime t)) = Ok (VTime t)).
+    (parse_time_np false (show_time_iso t) = Some t -> parse_with_meta (KTime ns) (show true (VTime t)) = Ok (VTime t)) /\
+    (parse_time_np true (show_time_iso t) = Some t -> parse_with_meta KTimeTz (show true (VTime t)) = Ok (VTime t)).
   Proof.
-    intros hive f t ns single. split.
+    intros hive f t ns single. split; [|split].
     - exact (roundtrip_float F T D show_float parse_float show_time_iso show_time_str parse_time_np parse_time_fmt f hive single).
     - exact (roundtrip_time F T D show_float parse_float show_time_iso show_time_str parse_time_np parse_time_fmt t ns).
+    - exact (roundtrip_timetz F T D show_float parse_float show_time_iso show_time_str parse_time_np parse_time_fmt t).
   Qed.
 
   (* drill / no metadata: the text of an integer is guessed back as that integer *)
